@@ -1134,6 +1134,44 @@ class WbMemOracle:
         return False
 
 
+def axi_attr_check(sig, nb, full=False, wrap_len_free=False):
+    """AXI4 request attributes a bus master may drive (AMBA AXI A3.4.1), checked on the signals of one cycle of an AXI
+    port whose data bus has `nb` byte lanes; independent of any model.  `full`: the master issues full-width single
+    beats only (bridges from AXI-Lite / Wishbone).  `wrap_len_free`: the burst type is a constructor argument chosen
+    by the user for single beats (the WRAP length rule is then the user's business).  Returns a message or None."""
+    lg = nb.bit_length() - 1
+    for ch in ("aw", "ar"):
+        if not sig.get(ch + "valid"):
+            continue
+        size, ln, burst = sig.get(ch + "size"), sig.get(ch + "len"), sig.get(ch + "burst")
+        if size is not None and size > lg:
+            return "%s.size = %d announces %d-byte beats on a %d-byte data bus" % (ch, size, 1 << size, nb)
+        if full and size is not None and (size != lg or ln not in (0, None)):
+            return "%s: full-width single beat expected (size %d, len 0), got size %r len %r" % (ch, lg, size, ln)
+        if burst == 3:
+            return "%s.burst = 3 (reserved)" % ch
+        if ln is not None and ln > 255:
+            return "%s.len = %d" % (ch, ln)
+        if burst == 0 and ln is not None and ln > 15:
+            return "%s: FIXED burst of %d beats" % (ch, ln + 1)
+        if burst == 2 and not wrap_len_free and ln not in (1, 3, 7, 15):
+            return "%s: WRAP burst of %d beats" % (ch, (ln or 0) + 1)
+    return None
+
+
+class AxiAttrMonitor:
+    """Monitor of an instance whose slave side is an AXI port the bridge masters (signals `s.*`)."""
+
+    def __init__(self, inst, nb, full=False, wrap_len_free=False):
+        self.inst, self.nb, self.full, self.wrap_len_free = inst, nb, full, wrap_len_free
+
+    def observe(self, letter, outs):
+        d = self.inst.sig_dict(letter, outs)
+        s = {k[2:]: v for k, v in d.items() if k.startswith("s.")}
+        msg = axi_attr_check(s, self.nb, self.full, self.wrap_len_free)
+        return ("slave side: " + msg) if msg else None
+
+
 class BridgeMonitor:
     """Property oracle for one open bridge instance.
 
@@ -1145,6 +1183,7 @@ class BridgeMonitor:
                  b_order=False, fair=False):
         self.inst = inst
         self.m_kind, self.s_kind = m_kind, s_kind
+        self.s_nb = s_nb
         mk = {"axl": lambda nb, amap: AxlMemOracle(nb, amap, check_data=check_data),
               "axi": lambda nb, amap: AxiMemOracle(nb, amap, check_data=check_data),
               "ahb": lambda nb, amap: AhbMemOracle(nb, amap),
@@ -1226,6 +1265,10 @@ class BridgeMonitor:
             msg = self._stab(self.s_kind, ps, s, True)
             if msg:
                 return "slave side: " + msg
+            if self.s_kind == "axi":
+                msg = axi_attr_check(s, self.s_nb, full=self.m_kind in ("axl", "wb", "ahb"))
+                if msg:
+                    return "slave side: " + msg
             if self.s_kind == "wb" and s["cyc"] and s["stb"] and (s.get("cti", 0) or s.get("bte", 0)):
                 return "slave side: Wishbone cti/bte = %d/%d on a classic cycle" % (s.get("cti", 0), s.get("bte", 0))
         # ---- environment guard 2: partner responses held and memory-behaved
